@@ -50,8 +50,8 @@ def register(PROPS):
             D('c05_longlines', ['lo=960', 'hi=1030'], ['lo=700', 'hi=1100'], label='long-lines', shards=8),
             D('c05_longlines', ['lo=1000', 'hi=1030'], ['lo=960', 'hi=1030'], label='long-lines-asan', shards=8, variant='asan'),
             D('c05_zones', ['maxn=4'], label='zones', shards=8),
-            D('c05_tzchain', ['n=300'], ['n=1200'], label='tz-chain', shards=16),
-            D('c05_tzchain', ['n=300'], label='tz-chain-asan', shards=16, variant='asan'),
+            D('c05_tzchain', ['n=300', 'gapdays=1'], ['n=1200', 'gapdays=1'], label='tz-chain', shards=16),
+            D('c05_tzchain', ['n=300', 'gapdays=1'], label='tz-chain-asan', shards=16, variant='asan'),
             D('c05_mailflags', [], label='mail-flags', shards=8),
             D('c05_mailflags', [], label='mail-flags-asan', shards=8, variant='asan'),
             D('c05_zones', ['maxn=3'], ['maxn=4'], label='zones-asan', shards=8, variant='asan'),
